@@ -10,7 +10,7 @@ from vlib import fbits, bitsf
 
 LEVEL_TEXT = ('Lean 4 theorems about the executable model of fourier.dft2/idft2 instantiated at ℂ/ℝ, for all shapes, real '
               'samplings α_r ≠ α_c, real shifts, integer offsets and both flags: the triple product equals the defining double sum '
-              'with factor √|α_r α_c| exactly when unitary; linearity; on a full period (α = 1/m, 1/n, equal shapes, same flag) '
+              'with factor √|α_r α_c| exactly when unitary; linearity; zero-padded embedding = sub-array with offset; shift = input phase ramp; on a full period (α = 1/m, 1/n, equal shapes, same flag) '
               'idft2 ∘ dft2 = id, and under the unitary flag dft2 and idft2 conserve Σ|·|² (roots-of-unity orthogonality). The '
               'same model definitions are run at complex doubles against the real functions on every check.')
 LEVEL_NOTE = ('Trusted: Lean kernel + Mathlib; that np.dot/np.outer/np.exp compute the sums/products/exponentials the hand model '
